@@ -32,6 +32,9 @@ pub use process::verif_process_memory;
 #[cfg(boreal_verif)]
 #[doc(hidden)]
 pub use crate::timeout::verif as verif_timeout;
+#[cfg(boreal_verif)]
+#[doc(hidden)]
+pub use crate::matcher::VerifStringDesc;
 
 /// Holds a list of rules, and provides methods to run them on files or bytes.
 ///
@@ -589,6 +592,18 @@ impl Scanner {
     #[must_use]
     pub fn scan_params(&self) -> &ScanParams {
         &self.scan_params
+    }
+
+    /// Describe how each string was compiled, in compilation order (verification hook).
+    #[cfg(boreal_verif)]
+    #[doc(hidden)]
+    #[must_use]
+    pub fn verif_describe_strings(&self) -> Vec<VerifStringDesc> {
+        self.inner
+            .variables
+            .iter()
+            .map(|var| var.matcher.verif_describe())
+            .collect()
     }
 
     /// Get the value of a bytes symbol.
